@@ -9,7 +9,9 @@
               bytevector bytevector? bytevector-u8-ref bytevector-u8-set! bytevector-length make-bytevector
               exact-integer? eof-object? write-string write-char newline flush-output-port
               open-input-string open-output-string get-output-string call-with-port let-values floor/
-              string-map vector-for-each symbol=? read-error? char-ready? exact inexact truncate)
+              string-map vector-for-each symbol=? read-error? char-ready? exact inexact truncate
+              numerator denominator rational? exact?)
+        (only (scheme complex) real-part imag-part make-rectangular)
         (prefix (scheme write) r7:) (prefix (scheme read) r7:)
         (only (scheme bytevector) bytevector-ieee-double-native-ref bytevector-ieee-double-native-set!)
         (only (srfi 69) make-hash-table hash-table-ref/default hash-table-set!))
@@ -44,6 +46,11 @@
        ((eq? x ERR) (write-string "ERR" o))
        ((eq? x TRAIL) (write-string "TRAIL" o))
        ((exact-integer? x) (write-string "I" o) (write-string (number->string x 16) o))
+       ((and (number? x) (not (real? x)))
+        (write-string "X " o) (e (real-part x)) (write-string " " o) (e (imag-part x)))
+       ((and (number? x) (exact? x) (rational? x))
+        (write-string "Q" o) (write-string (number->string (numerator x) 16) o)
+        (write-string "/" o) (write-string (number->string (denominator x) 16) o))
        ((and (number? x) (inexact? x) (real? x)) (write-string "D" o) (write-string (number->string (flo-bits x) 16) o))
        ((char? x) (write-string "C" o) (write-string (number->string (char->integer x) 16) o))
        ((string? x) (write-string "S" o) (hex-bytes (string->utf8 x) o))
@@ -85,7 +92,14 @@
 (define (tab) (write-char #\tab out))
 (define (show-text t) (if t (hex-bytes (string->utf8 t) out) (write-string "ERR" out)))
 
-(define (verif-run id thunk w1 w2)
+;; the encoding of what reads back; for trees (chk #t) also " !NE" when it is not equal? to the
+;; original although the encodings agree (e.g. an exact integer part left as an unnormalised bignum)
+(define (show-back x y chk)
+  (enc y out)
+  (if (and chk (not (eq? y ERR)) (not (eq? y TRAIL)) (not (equal? x y)))
+      (write-string " !NE" out)))
+
+(define (verif-run id thunk w1 w2 chk)
   (write-string (number->string id) out)
   (let ((x (guard (e (#t ERR)) (thunk))))
     (cond
@@ -93,20 +107,20 @@
      (else
       (let* ((t1 (text-of w1 x)) (t2 (text-of w2 x)))
         (tab) (show-text t1)
-        (tab) (enc (read-back native-read t1) out)
-        (tab) (enc (read-back r7:read t1) out)
+        (tab) (show-back x (read-back native-read t1) chk)
+        (tab) (show-back x (read-back r7:read t1) chk)
         (tab) (show-text t2)
-        (tab) (enc (read-back native-read t2) out)
-        (tab) (enc (read-back r7:read t2) out)
+        (tab) (show-back x (read-back native-read t2) chk)
+        (tab) (show-back x (read-back r7:read t2) chk)
         (tab) (enc x out)))))
   (newline out))
 
 ;; trees: native write and (scheme write) write
 (define-syntax verif-case
-  (syntax-rules () ((_ id expr) (verif-run id (lambda () expr) native-write r7:write))))
+  (syntax-rules () ((_ id expr) (verif-run id (lambda () expr) native-write r7:write #t))))
 ;; graphs with sharing/cycles: both columns use datum labels (write-shared all shared, write cyclic only)
 (define-syntax verif-graph
-  (syntax-rules () ((_ id expr) (verif-run id (lambda () expr) r7:write-shared r7:write))))
+  (syntax-rules () ((_ id expr) (verif-run id (lambda () expr) r7:write-shared r7:write #f))))
 
 ;; texts (mutated external representations): both readers on the same text
 (define (verif-text id hex)
